@@ -5,6 +5,7 @@ pub mod c01;
 pub mod c02;
 pub mod c03;
 pub mod c04;
+pub mod c05;
 pub mod c06;
 pub mod c07;
 pub mod c08;
@@ -35,6 +36,7 @@ pub fn run(prop: &str, cx: &mut Ctx) -> bool {
         "C02" => c02::run(cx),
         "C03" => c03::run(cx),
         "C04" => c04::run(cx),
+        "C05" => c05::run(cx),
         "C06" => c06::run(cx),
         "C07" => c07::run(cx),
         "C08" => c08::run(cx),
